@@ -488,6 +488,37 @@ def lifetime_case(case):
             Core.Environment.tag = 0
         return 2
     m = new_model(seed=1)
+    if how in ('seen_in_ctor', 'numbered', 'numbered_world'):
+        # the default is received when Agent.__init__ runs: a subclass constructor that goes on after handing over to it sees
+        # the tag; a class that moves its default on after each creation (numbering its instances) tags them 0, 1, 2 ...
+        base = Core.Environment if how == 'numbered_world' else Core.Agent
+        seen = []
+
+        class Numbered(base):
+            def __init__(self, *a, **kw):
+                super().__init__(*a, **kw)
+                seen.append(self.tag)
+                if how != 'seen_in_ctor':
+                    type(self).tag = self.tag + 1
+
+        class Sub(Numbered):
+            pass
+        Numbered.tag = 4 if how == 'seen_in_ctor' else 0
+        made = []
+        for i, cls in enumerate((Numbered, Numbered, Sub, Numbered, Sub)):
+            made.append(cls(m, f'n{i}') if base is Core.Environment else cls(f'n{i}', m))
+        if base is Core.Agent:
+            made.append(Numbered('ex', m, tag=9))          # an explicit tag wins (worlds take none)
+        if how == 'seen_in_ctor':
+            want = [4, 4, 0, 4, 0, 9]
+        else:
+            want = [0, 1, 0, 2, 1, 9]      # Sub has a default of its own (0), moved on by its own instances only
+        want = want[:len(made)]
+        got = [a.tag for a in made]
+        if got != want or seen != want or base.tag != 0:
+            raise Violation(f'tags of instances whose constructor goes on after {base.__name__}.__init__ ({how}): as seen inside '
+                            f'the constructor / afterwards', expected=[want, want], observed=[seen, got])
+        return 6
 
     class Lazy(Core.Agent):
         registered = False
@@ -540,7 +571,7 @@ def run(ctx):
                 except Violation as v:
                     ctx.report(case, v)
                     return
-    for how in ('model_environment', 'parent_first', 'child_first'):
+    for how in ('model_environment', 'parent_first', 'child_first', 'seen_in_ctor', 'numbered', 'numbered_world'):
         case = {'leg': 'lifetime', 'how': how}
         ctx.traces += 1
         try:
